@@ -47,21 +47,21 @@ type nodeChk struct {
 	logGen   uint64 // bumped whenever the log content changed
 
 	// C07
-	haveHS            bool
-	hsTerm, hsVote    uint64
-	hsCommit          uint64
-	emTerm, emVote    uint64 // last emitted hard state
-	emCommit          uint64
-	haveEm            bool
-	restartTerm       uint64
-	durTerm, durVote  uint64
-	durCommit         uint64
-	maxSentVoteTerm   uint64
-	maxSentVoteCand   uint64
+	haveHS           bool
+	hsTerm, hsVote   uint64
+	hsCommit         uint64
+	emTerm, emVote   uint64 // last emitted hard state
+	emCommit         uint64
+	haveEm           bool
+	restartTerm      uint64
+	durTerm, durVote uint64
+	durCommit        uint64
+	maxSentVoteTerm  uint64
+	maxSentVoteCand  uint64
 
 	// C08
-	nextApply      uint64
-	applyOutSizes  []uint64 // sizes of batches handed out and not yet acknowledged
+	nextApply       uint64
+	applyOutSizes   []uint64 // sizes of batches handed out and not yet acknowledged
 	snapOutstanding bool
 
 	// C18
@@ -69,7 +69,7 @@ type nodeChk struct {
 	handedOut []handedOut
 
 	// C16
-	episodes map[uint64]*fcEpisode
+	episodes              map[uint64]*fcEpisode
 	ucAccepted, ucApplied uint64
 	ucTerm                uint64
 	snapPending           map[uint64]bool
@@ -87,10 +87,10 @@ type nodeChk struct {
 	confVersions  []confVersion
 
 	// C11
-	readRecv map[string]int     // ctx -> earliest step at which this leader received the request (this leadership)
-	hbResp   map[uint64]int     // peer -> last step a MsgHeartbeatResp from it was delivered
-	issued   map[string]uint64  // ctx -> reported commit at (earliest) issue
-	selfVoteTerm uint64 // term for which the own vote has been recorded durably
+	readRecv     map[string]int    // ctx -> earliest step at which this leader received the request (this leadership)
+	hbResp       map[uint64]int    // peer -> last step a MsgHeartbeatResp from it was delivered
+	issued       map[string]uint64 // ctx -> reported commit at (earliest) issue
+	selfVoteTerm uint64            // term for which the own vote has been recorded durably
 
 	// C20
 	tagCount map[int]int
@@ -109,9 +109,9 @@ type handedOut struct {
 }
 
 type fcEpisode struct {
-	term  uint64
-	inc   int
-	sent  []fcSent
+	term uint64
+	inc  int
+	sent []fcSent
 }
 type fcSent struct {
 	last  uint64
@@ -126,18 +126,18 @@ type Checker struct {
 	nc  map[uint64]*nodeChk
 
 	// G
-	gBase  uint64
-	g      []gEntry // g[i] is index gBase+1+i
+	gBase           uint64
+	g               []gEntry // g[i] is index gBase+1+i
 	leaderCommitMax uint64
-	baseChain uint64
+	baseChain       uint64
 
 	// refconf over the committed sequence
 	confInit *RefConf
 	confs    []confRec
 	nBoot    uint64 // number of Bootstrap entries (exempt from some checks)
 
-	lm       map[lmKey]lmVal
-	leaders  map[uint64]leaderRec
+	lm        map[lmKey]lmVal
+	leaders   map[uint64]leaderRec
 	sentVotes map[voteKey]uint64
 	preVotes  map[voteKey]map[uint64]bool // (candidate, term) -> voters that handed out a grant
 	appChain  map[uint64]uint64
@@ -145,16 +145,16 @@ type Checker struct {
 	reportedCommit uint64
 
 	// proposals
-	proposed   map[int][]byte // tag -> payload
-	propState  map[int]*propRec
-	ccProposed map[string][]byte // context -> marshalled data
-	ccType     map[string]pb.EntryType
+	proposed      map[int][]byte // tag -> payload
+	propState     map[int]*propRec
+	ccProposed    map[string][]byte // context -> marshalled data
+	ccType        map[string]pb.EntryType
 	neutralBudget map[uint64]int // term -> conf-change proposals delivered to that term's leader
 	emptyByTerm   map[uint64]map[uint64]bool
 
-	toolErr string
+	toolErr     string
 	foreignSeen int
-	lin     *linRecorder
+	lin         *linRecorder
 }
 
 type propRec struct {
@@ -168,16 +168,16 @@ type propRec struct {
 func newChecker(c *Cluster, opt Options) *Checker {
 	return &Checker{
 		c: c, opt: opt,
-		nc:        map[uint64]*nodeChk{},
-		lm:        map[lmKey]lmVal{},
-		leaders:   map[uint64]leaderRec{},
-		sentVotes: map[voteKey]uint64{},
-		preVotes:  map[voteKey]map[uint64]bool{},
-		appChain:  map[uint64]uint64{},
-		proposed:  map[int][]byte{},
-		propState: map[int]*propRec{},
-		ccProposed: map[string][]byte{},
-		ccType:     map[string]pb.EntryType{},
+		nc:            map[uint64]*nodeChk{},
+		lm:            map[lmKey]lmVal{},
+		leaders:       map[uint64]leaderRec{},
+		sentVotes:     map[voteKey]uint64{},
+		preVotes:      map[voteKey]map[uint64]bool{},
+		appChain:      map[uint64]uint64{},
+		proposed:      map[int][]byte{},
+		propState:     map[int]*propRec{},
+		ccProposed:    map[string][]byte{},
+		ccType:        map[string]pb.EntryType{},
 		neutralBudget: map[uint64]int{},
 		emptyByTerm:   map[uint64]map[uint64]bool{},
 	}
@@ -244,6 +244,15 @@ func (k *Checker) report(prop, oracle string, n *Node, msg, sig string) {
 	// recorded (first one per run) and the run goes on: on a tree that breaks
 	// that other property, the property under check may break later in the
 	// same execution, and that is what this check has to see.
+	if k.opt.Target == "C05" && n != nil && n.inc > 0 && (prop == "C01" || prop == "C02" || prop == "C03" || prop == "C04") {
+		// C05, last sentence: a crash followed by a restart from storage never
+		// invalidates C01-C04. The node at which the violation shows has been
+		// restarted from its durable state at least once.
+		v.Msg = fmt.Sprintf("after %d restart(s) from storage: %s/%s: %s", n.inc, prop, oracle, msg)
+		v.Property, v.Oracle = "C05", "dur.consequence"
+		v.Sig = "dur.consequence:" + v.Sig
+		prop = "C05"
+	}
 	if t := k.opt.Target; t != "" && prop != t && prop != "TOOL" {
 		if k.c.foreign == nil {
 			k.c.foreign = v
@@ -252,6 +261,20 @@ func (k *Checker) report(prop, oracle string, n *Node, msg, sig string) {
 		return
 	}
 	k.c.viol = v
+}
+
+// report2 reports an event that contradicts two statements: under (propB,
+// oracleB) when that is the property under check, under (propA, oracleA)
+// otherwise.
+func (k *Checker) report2(propA, oracleA, propB, oracleB string, n *Node, msg, sig string) {
+	if k.opt.Target == propB {
+		if sig != "" {
+			sig = oracleB + ":" + sig
+		}
+		k.report(propB, oracleB, n, msg, sig)
+		return
+	}
+	k.report(propA, oracleA, n, msg, sig)
 }
 
 func (k *Checker) toolError(msg string) {
